@@ -192,7 +192,10 @@ def base (rng):
             g ['tag'] = i + 1
     n0 = spec ['geo'][0]['n'] if spec ['geo'][0]['k'] == 'w' else 3
     if rng.random () < 0.3 and all (g.get ('tag') for g in spec ['geo']) and spec ['geo'][0]['k'] == 'w' and n0 >= 3:
-        spec ['geo'][0]['taper'] = [int (rng.integers (1, 4)), None, None]
+        g0  = spec ['geo'][0]
+        sl0 = float (np.linalg.norm (np.array (g0 ['p1']) - np.array (g0 ['p2'])) / g0 ['n'])
+        spec ['geo'][0]['taper'] = [ int (rng.integers (1, 4)), None if rng.random () < 0.5 else float (sl0 * rng.uniform (0.02, 0.9))
+                                   , None if rng.random () < 0.5 else float (sl0 * rng.uniform (1.05, 4))]
     spec ['src'] = [dict (p = [max (1, n0 // 2)], v = gen.rand_voltage (rng))]
     if rng.random () < 0.3 and n0 >= 4:
         spec ['src'].append (dict (p = [1, 1] if all (g.get ('tag') for g in spec ['geo']) else [1], v = gen.rand_voltage (rng)))
